@@ -31,6 +31,51 @@ var nondetFuncs = map[string]bool{
 	"runtime.NumGoroutine": true, "runtime.Caller": true, "runtime.Callers": true, "runtime.Stack": true, "runtime.NumCPU": true, "runtime.GOMAXPROCS": true, "runtime.ReadMemStats": true, "runtime.GC": true, "runtime.SetFinalizer": true,
 }
 
+// mapIterSorted: is the call maps.Keys / maps.Values / maps.All (an iterator in the map's own order), and is every use
+// of its result the argument of slices.Sorted (which collects and sorts: the order no longer shows)?
+func mapIterSorted(call ssa.CallInstruction) (isIter bool, ok bool, why string) {
+	c := call.Common().StaticCallee()
+	if c == nil || fnPkgPath(c) != "maps" || len(call.Common().Args) != 1 {
+		return false, false, ""
+	}
+	base := c.Name()
+	if i := strings.Index(base, "["); i >= 0 {
+		base = base[:i]
+	}
+	if base != "Keys" && base != "Values" && base != "All" {
+		return false, false, ""
+	}
+	v, isVal := call.(ssa.Value)
+	if !isVal || v.Referrers() == nil {
+		return true, false, "the iterator is not a value whose uses can be followed"
+	}
+	n := 0
+	for _, r := range *v.Referrers() {
+		switch u := r.(type) {
+		case *ssa.DebugRef:
+		case *ssa.Call:
+			sc := u.Call.StaticCallee()
+			name := ""
+			if sc != nil {
+				name = sc.Name()
+				if i := strings.Index(name, "["); i >= 0 {
+					name = name[:i]
+				}
+			}
+			if sc == nil || fnPkgPath(sc) != "slices" || name != "Sorted" || len(u.Call.Args) != 1 || u.Call.Args[0] != v {
+				return true, false, "maps." + base + " feeds " + describe(u) + " — its order is the map's"
+			}
+			n++
+		default:
+			return true, false, "maps." + base + " is used by " + describe(v) + " outside slices.Sorted"
+		}
+	}
+	if n == 0 {
+		return true, true, "maps." + base + " whose result is not used"
+	}
+	return true, true, "maps." + base + " handed straight to slices.Sorted: collected and sorted, the map's order does not show"
+}
+
 func checkC13(p *Prog, l *Ledger) {
 	// side effects happen in source order: the initialisers of an object literal run in the order they are written (C12's
 	// literal rule), not in passes chosen by what they look like
@@ -86,6 +131,18 @@ func checkC13(p *Prog, l *Ledger) {
 				nCalls++
 				if _, isGo := x.(*ssa.Go); isGo && inScope {
 					l.Violate("C13/S2-source", fk+"#go", p.InstrPos(in), "go statement: scheduling becomes an input")
+				}
+				if isIter, ok, why := mapIterSorted(x); isIter {
+					// the library's iterator over a map is a map range by another spelling
+					key := fmt.Sprintf("%s#range(%s)", fk, describe(x.Common().Args[0]))
+					if inScope {
+						rangeSites = append(rangeSites, key)
+						if ok {
+							l.Discharge("C13/S1-map-range", key, p.InstrPos(in), why, true)
+						} else {
+							l.Violate("C13/S1-map-range", key, p.InstrPos(in), "iteration order of a Go map is observable here: "+why)
+						}
+					}
 				}
 				for _, c := range p.Callees(x) {
 					if p.InModule(c) {
